@@ -80,7 +80,9 @@ fn boundaries(v: &Vector) -> Option<Vec<u64>> {
 /// all probabilities are multiples of the draw resolution 2^-23: every partial
 /// sum is exactly representable in f32 and the expected counts are exact
 fn is_dyadic64(v: &Vector) -> bool {
-    v.probs.iter().all(|p| (*p as f64 * 8388608.0).fract() == 0.0)
+    v.probs
+        .iter()
+        .all(|p| (*p as f64 * 8388608.0).fract() == 0.0)
 }
 
 fn gen_vector(g: &mut Gen) -> Vector {
@@ -151,14 +153,20 @@ fn gen_vector(g: &mut Gen) -> Vector {
             6 | 7 => {
                 // grid-aligned: n_i * 2^-23 with a total a few draw steps below 1
                 // (or anywhere), so that the no-transition remainder is tiny
-                let short = if style == 6 { g.below(9) } else { g.below(GRID / 2) };
+                let short = if style == 6 {
+                    g.below(9)
+                } else {
+                    g.below(GRID / 2)
+                };
                 let total = GRID - short;
                 let mut cuts: Vec<u64> = (0..k - 1).map(|_| 1 + g.below(total - 1)).collect();
                 cuts.push(0);
                 cuts.push(total);
                 cuts.sort();
                 cuts.dedup();
-                cuts.windows(2).map(|w| (w[1] - w[0]) as f32 / GRID as f32).collect()
+                cuts.windows(2)
+                    .map(|w| (w[1] - w[0]) as f32 / GRID as f32)
+                    .collect()
             }
             4 => {
                 if k == 1 {
@@ -167,7 +175,9 @@ fn gen_vector(g: &mut Gen) -> Vector {
                     (0..k).map(|_| (g.f01() / k as f64) as f32).collect()
                 }
             }
-            _ => (0..k).map(|_| (g.f01() * g.f01() / k as f64) as f32).collect(),
+            _ => (0..k)
+                .map(|_| (g.f01() * g.f01() / k as f64) as f32)
+                .collect(),
         };
         let mut sum = 0f32;
         for p in &ps {
@@ -242,7 +252,11 @@ impl C06 {
         };
         let k = v.targets.len();
         let dyadic = is_dyadic64(v);
-        stats.inc(if dyadic { "dyadic_vectors" } else { "non_dyadic_vectors" });
+        stats.inc(if dyadic {
+            "dyadic_vectors"
+        } else {
+            "non_dyadic_vectors"
+        });
         stats.probe_if("sum_exactly_one", *b.last().unwrap() == GRID);
         stats.probe_if("has_end_target", v.targets.contains(&STATE_END));
         stats.probe_if("has_signal_target", v.targets.contains(&STATE_SIGNAL));
@@ -384,7 +398,10 @@ impl C06 {
             };
             let got = if snap.machines[0].current_state == STATE_END {
                 Some(STATE_END)
-            } else if acts.iter().any(|a| a.machine == 1 && a.timeout_ns == 777_000) {
+            } else if acts
+                .iter()
+                .any(|a| a.machine == 1 && a.timeout_ns == 777_000)
+            {
                 Some(STATE_SIGNAL)
             } else if let Some(a) = acts.iter().find(|a| a.machine == 0) {
                 Some((a.timeout_ns / 1000) as usize)
@@ -446,6 +463,7 @@ impl Engine for C06 {
             ],
             stubbed_components: vec!["random source: one scripted word per draw", "probe / observer machines"],
             totality: false,
+            cpu_limit_s: crate::sup::CASE_CPU_LIMIT_S,
             exhaustive: true,
         }
     }
